@@ -634,6 +634,27 @@ func ruleDedupeKeepsOne(r *core.Reporter) {
 			}
 		}
 	}
+	// …nor any combination of other conditions (a disjunction such as `HasChildren() || HasRedirection()` has no
+	// single dominating edge): the recursion must stay reachable whatever the foreign branches decide
+	if okFlat {
+		var foreign []ir.IfInfo
+		for _, ii := range ir.Ifs(trav) {
+			a := ii.Atom
+			isNilTest := a.V == nil && a.Op == token.EQL && (ir.IsNilConst(a.X) || ir.IsNilConst(a.Y))
+			isBound := a.V == nil && a.Op == token.LSS
+			isRangeNext := false
+			if e, ok := a.V.(*ssa.Extract); ok {
+				_, isRangeNext = e.Tuple.(*ssa.Next)
+			}
+			if !isNilTest && !isBound && !isRangeNext {
+				foreign = append(foreign, ii)
+			}
+		}
+		if ok, why := ir.IndependentOf(ir.Entry(trav), rec, foreign, nil); !ok {
+			okFlat = false
+			_ = why
+		}
+	}
 	if okFlat {
 		r.Held("flattenTree", 1, "every node's children are visited unconditionally")
 	} else {
